@@ -10,11 +10,28 @@
     (a) as long as an accepted task is unstarted (context live) either the lane itself can move or every
     worker is inside Start(); (b) every step the lane takes on its own strictly decreases a natural-number
     measure, so it cannot move forever without new input; (c) hence every maximal run of internal steps and
-    task returns is finite and ends with every accepted task started. Real time and scheduler fairness
-    ("the runtime eventually runs an enabled goroutine") are outside the model: partial in that sense. *)
+    task returns is finite and ends with every accepted task started.
+
+    SCOPE OF THE LIVENESS THEOREMS (read this before citing them). C06_quiet_finite / C06_all_started speak
+    about QUIET runs: closed-system runs made of internal steps and task returns only — no further PushOk.
+    Every PushOk raises the measure again. Under SUSTAINED pushing the MODEL ADMITS STARVATION of an accepted
+    task: [C06_ex_starvation_in_model] below is such a run (task 10 sits in queue goroutine 0's blocking offer
+    while worker 0 serves 20 later tasks of lane 1 from the universal queue). Two features of the model allow
+    it: the [default] branches QTryFail/WTryFail are always enabled, even when the partner is parked (worker 0's
+    non-blocking receive "fails" although its queue goroutine is offering), and a [select] with several ready
+    cases may take any of them forever (Go picks uniformly at random, so in the real program such a run has
+    probability 0, but it is not excluded). So: no fairness, no bounded overtaking, no "eventually" under load
+    is claimed here. [Model/TaskLaneTight.v] (theorems C06_tight_... below) gives the variant of the model in which a default
+    branch is disabled while the partner sits in its blocking select, proves that it refines this model (all
+    safety theorems transfer) and that there a worker returning to its loop top takes the task its own queue
+    goroutine is offering in that very iteration; that variant idealises "in the blocking select" as "already
+    parked" and is therefore NOT used for trace acceptance.
+    Real time and scheduler fairness ("the runtime eventually runs an enabled goroutine") are outside the
+    model: partial in that sense. *)
 From Coq Require Import List Arith Bool.
 Import ListNotations.
-From Glb Require Import Model.TaskLane Proofs.TaskLaneP Proofs.TaskLaneInv Proofs.TaskLaneLive Proofs.TaskLaneDec.
+From Glb Require Import Model.TaskLane Proofs.TaskLaneP Proofs.TaskLaneInv Proofs.TaskLaneLive Proofs.TaskLaneDec
+  Model.TaskLaneTight Proofs.TaskLaneTightP.
 
 (** No task is started twice; only accepted tasks are started; a task whose push returned an error is
     never accepted and never started — in every reachable state of every execution. *)
@@ -96,3 +113,101 @@ Proof. vm_compute. reflexivity. Qed.
 Theorem C06_stuck_check : forall qs s, quiet_stuckb qs s = true -> stuck qs quiet s.
 Proof. exact quiet_stuckb_sound. Qed.
 Print Assumptions C06_stuck_check.
+
+(** NOT covered by the liveness theorems: starvation under sustained pushing, admitted by the model.
+    2 lanes, queueSize 1. Worker 1 is pinned by task 1; task 10 is accepted on lane 0 and its queue goroutine
+    parks in the blocking offer. In every round a new task is pushed to lane 1, worker 0 takes the [default]
+    of its non-blocking receive (always enabled in this model) and then serves lane 1's task from the
+    universal queue. After 20 rounds: context live, 10 accepted, 10 not started, 21 other tasks started. *)
+Definition C06_starve_prefix : list label :=
+  [PushBegin 0 1 1; PushOk 0; QTake 1; QCount 1; QCheck 1; WCheck 1; QTryOwn 1; QDecr 1;
+   PushBegin 0 0 10; PushOk 0; QTake 0; QCount 0; QCheck 0; QTryFail 0].
+Definition C06_starve_round (t : task) : list label :=
+  [PushBegin 0 1 t; PushOk 0; QTake 1; QCount 1; QCheck 1; QTryFail 1;
+   WCheck 0; WTryFail 0;
+   QOfferUni 1 0; QDecr 1; WEnd 0 None].
+Fixpoint C06_starve_rounds (k : nat) (t : task) : list label :=
+  match k with O => [] | S k' => C06_starve_round t ++ C06_starve_rounds k' (S t) end.
+
+Example C06_ex_starvation_in_model :
+  option_map (fun s => (cancelled s, existsb (Nat.eqb 10) (accepted s), existsb (Nat.eqb 10) (started s),
+                        length (started s), map q (lanes s), map w (lanes s)))
+    (run 1 (init 2) (C06_starve_prefix ++ C06_starve_rounds 20 100))
+  = Some (false, true, false, 21, [QOffer 10; QWait], [WTop; WRun 1]).
+Proof. vm_compute. reflexivity. Qed.
+
+(** ---- Tight variant ([Model/TaskLaneTight.v]): [tstep] = [step] minus QTryFail while the own worker is in its
+    blocking receive, minus WTryFail while the own queue goroutine is in its blocking offer. ---- *)
+
+(** Refinement: every tight run is a run of the model above, so every theorem about all reachable states
+    (C06_exactly_once, C08_bound, C14_pending_bounds, ...) holds for the tight variant too. *)
+Theorem C06_tight_refines : forall qs ls s s', trun qs s ls = Some s' -> run qs s ls = Some s'.
+Proof. exact trun_refines. Qed.
+Print Assumptions C06_tight_refines.
+
+Theorem C06_tight_transfer : forall qs n (P : state -> Prop),
+  (forall ls s, run qs (init n) ls = Some s -> P s) ->
+  forall ls s, trun qs (init n) ls = Some s -> P s.
+Proof. exact tight_transfer. Qed.
+Print Assumptions C06_tight_transfer.
+
+(** Disabling the defaults adds no deadlock: whenever the lane can move in the loose model it can move in the
+    tight one (the rendezvous the default would have skipped is enabled) — so progress and "a maximal quiet run
+    starts every accepted task" hold there as well. *)
+Theorem C06_tight_no_new_deadlock : forall qs s,
+  (exists l, internal l = true /\ step qs s l <> None) ->
+  (exists l, internal l = true /\ tstep qs s l <> None).
+Proof. exact tight_no_new_deadlock. Qed.
+Print Assumptions C06_tight_no_new_deadlock.
+
+Theorem C06_tight_progress : forall qs n ls s t,
+  trun qs (init n) ls = Some s -> cancelled s = false -> In t (accepted s) -> ~ In t (started s) ->
+  (exists l, internal l = true /\ tstep qs s l <> None) \/ all_workers_running s = true.
+Proof. exact tight_progress. Qed.
+Print Assumptions C06_tight_progress.
+
+Theorem C06_tight_all_started : forall qs n ls s,
+  trun qs (init n) ls = Some s -> cancelled s = false ->
+  (forall l, quiet l = true -> tstep qs s l = None) ->
+  forall t, In t (accepted s) -> In t (started s).
+Proof. exact tight_all_started. Qed.
+Print Assumptions C06_tight_all_started.
+
+(** The own worker takes it. Queue goroutine i is offering [t]; worker i is back at its loop top, context live:
+    its loop-top test brings it to the non-blocking receive ([C06_tight_loop_top]); there the hand-over from its
+    own queue goroutine is enabled ([C06_tight_own_receive_enabled]); and whatever single step the whole system
+    takes from there, either queue goroutine i is still offering [t] to worker i still at that receive, or [t]
+    has just been started (by worker i, or by another worker over the universal queue)
+    ([C06_tight_own_worker_takes]) — worker i cannot fall through and serve another lane in that iteration.
+    NOT claimed: bounded overtaking in general. A worker already inside its blocking select with both its own
+    channel and the universal queue ready may take either (Go: uniformly at random), in both variants. *)
+Theorem C06_tight_loop_top : forall qs s i b0 t,
+  nth_error (lanes s) i = Some (mkLane b0 (QOffer t) WTop) -> cancelled s = false ->
+  exists s', tstep qs s (WCheck i) = Some s' /\ nth_error (lanes s') i = Some (mkLane b0 (QOffer t) WTry)
+             /\ cancelled s' = false.
+Proof. exact tight_loop_top. Qed.
+Print Assumptions C06_tight_loop_top.
+
+Theorem C06_tight_own_receive_enabled : forall qs s i b0 t,
+  nth_error (lanes s) i = Some (mkLane b0 (QOffer t) WTry) -> tstep qs s (QOfferOwn i) <> None.
+Proof. exact tight_own_receive_enabled. Qed.
+Print Assumptions C06_tight_own_receive_enabled.
+
+Theorem C06_tight_own_worker_takes : forall qs s i b0 t l s',
+  nth_error (lanes s) i = Some (mkLane b0 (QOffer t) WTry) -> cancelled s = false ->
+  tstep qs s l = Some s' ->
+  (exists b1, nth_error (lanes s') i = Some (mkLane b1 (QOffer t) WTry))
+  \/ started s' = t :: started s.
+Proof. exact tight_own_worker_takes. Qed.
+Print Assumptions C06_tight_own_worker_takes.
+
+(** Non-vacuity / contrast: the starvation round above is not a run of the tight variant (it is refused at
+    worker 0's WTryFail), its first 7 labels are and reach the hypotheses of C06_tight_own_worker_takes for task 10,
+    and from there the own hand-over starts 10. *)
+Example C06_ex_tight_rejects_starvation :
+  (trun 1 (init 2) (C06_starve_prefix ++ C06_starve_round 100),
+   option_map (fun s => (cancelled s, nth_error (lanes s) 0))
+              (trun 1 (init 2) (C06_starve_prefix ++ firstn 7 (C06_starve_round 100))),
+   option_map started (trun 1 (init 2) (C06_starve_prefix ++ firstn 7 (C06_starve_round 100) ++ [QOfferOwn 0])))
+  = (None, Some (false, Some (mkLane [] (QOffer 10) WTry)), Some [10; 1]).
+Proof. vm_compute. reflexivity. Qed.
